@@ -39,15 +39,16 @@ func (v vxRSys) DefaultLeaseTTL() time.Duration { return v.def }
 func (v vxRSys) MaxLeaseTTL() time.Duration     { return v.max }
 
 var (
-	vxRLease     *leaseEntry
-	vxRPersisted *leaseEntry
-	vxRTracked   *leaseEntry
-	vxRSysV      vxRSys
-	vxRLock      sync.RWMutex
-	vxRRespKind  int
-	vxRRespTTL   time.Duration
-	vxRRespMax   time.Duration
-	vxRSeenIssue time.Time
+	vxRLease      *leaseEntry
+	vxRPersisted  *leaseEntry
+	vxRTracked    *leaseEntry
+	vxRSysV       vxRSys
+	vxRLock       sync.RWMutex
+	vxRRespKind   int
+	vxRRespTTL    time.Duration
+	vxRRespMax    time.Duration
+	vxRSeenIssue  time.Time
+	vxRTokenStore *TokenStore
 )
 
 func vxRLoadEntry(m *ExpirationManager, ctx context.Context, id string) (*leaseEntry, error) {
@@ -58,7 +59,7 @@ func vxRPersistEntry(m *ExpirationManager, ctx context.Context, le *leaseEntry) 
 	vxRPersisted = &c
 	return nil
 }
-func vxRUpdatePending(m *ExpirationManager, le *leaseEntry) { c := *le; vxRTracked = &c }
+func vxRUpdatePending(m *ExpirationManager, le *leaseEntry)    { c := *le; vxRTracked = &c }
 func vxRLockFor(m *ExpirationManager, id string) *sync.RWMutex { return &vxRLock }
 func vxRSysView(r *routing.Router, ctx context.Context, path string) logical.SystemView {
 	return vxRSysV
@@ -66,6 +67,11 @@ func vxRSysView(r *routing.Router, ctx context.Context, path string) logical.Sys
 
 // the secrets engine's renew handler
 func vxRRoute(r *routing.Router, ctx context.Context, req *logical.Request) (*logical.Response, error) {
+	if req.Auth != nil && vxRTokenStore != nil {
+		// a token's renewal is routed to the token store's own renew handler (framework AuthRenew callback)
+		vxRSeenIssue = req.Auth.IssueTime
+		return vxRTokenStore.authRenew(ctx, req, nil)
+	}
 	if req.Secret != nil {
 		vxRSeenIssue = req.Secret.IssueTime
 	}
